@@ -147,6 +147,28 @@ def run_janssen(c):
     nontriv = False
     single = 0
     ells = np.linspace(-20.0, 0.0, NSCAN + 2)[1:-1]
+    # the total stress contains the viscous contribution c*rho_a*u**nu/(kappa*z0) along the wind
+    if c["viscous"]:
+        zfix = W.da([math.exp(-8.0 - 0.5 * i) for i in range(n)], spec)
+        with_v = gen.stress(spec, speed, wdir, roughness_length=zfix, wind_speed_input_type=it)
+        gen0 = create_wind_source_term("st4")
+        gen0._parameters = dict(gp, viscous_stress_parameter=0.0)
+        no_v = gen0.stress(spec, speed, wdir, roughness_length=zfix, wind_speed_input_type=it)
+        for i in range(n):
+            m1, d1 = float(with_v["stress"].values[i]), math.radians(float(with_v["direction"].values[i]))
+            m0, d0 = float(no_v["stress"].values[i]), math.radians(float(no_v["direction"].values[i]))
+            if not all(map(math.isfinite, (m1, d1, m0, d0))):
+                continue
+            zi = float(zfix.values[i])
+            ust = kappa * speed_v[i] / math.log(elev / zi) if it == "u10" else speed_v[i]
+            visc = c["viscous"] * rho * ust * gp["air_viscosity"] / kappa / zi
+            dx = m1 * math.cos(d1) - m0 * math.cos(d0)
+            dy = m1 * math.sin(d1) - m0 * math.sin(d0)
+            wx, wy = math.cos(math.radians(wdir_v[i])), math.sin(math.radians(wdir_v[i]))
+            require(abs(dx - visc * wx) <= 1e-9 * (m1 + visc) and abs(dy - visc * wy) <= 1e-9 * (m1 + visc),
+                    "total_stress_includes_viscous_stress_along_the_wind",
+                    f"point {i}: expected viscous vector {(visc * wx, visc * wy)!r}, stress difference {(dx, dy)!r}")
+        classes.append("viscous_term_checked")
     for i in range(n):
         zi = z[i]
         require(math.isnan(zi) or zi > 0, "janssen_roughness_missing_or_positive", f"point {i}: z0={zi!r}")
